@@ -43,8 +43,8 @@ META = dict(
               "count pairs, 2 densities, 7 global wavelengths + selected table points; structure edges: all fragment "
               "multisets of size <= 3 over 9 atoms and of size 4 over 3 atoms, all permutations x bracketings x "
               "group multipliers {1,2} x {string, nested list, dict}; conversions on 40 log-spaced points",
-        thorough="as quick with every table node/midpoint in the energy edge, structure edges for all multisets of "
-                 "size <= 4 over 9 atoms"),
+        thorough="as quick with every 3rd table node/midpoint in the scale/energy edges, structure edges for all "
+                 "multisets of size <= 3 over 9 atoms and of size 4 over 6 atoms"),
     assumptions=[
         "scales for the comparison (sum of magnitudes) come from the independent reference mc/ref/neutron.py; "
         "the expected value of an edge is always the library's own second run",
@@ -64,6 +64,7 @@ EDGE_DENSITIES = (1.0, 2.33)
 NONNEG = ("rho_im", "rho_inc", "xs_coh", "xs_abs", "xs_inc", "penetration")
 A9 = c03.K9
 A3 = (("H", 0, 0), ("Gd", 157, 0), ("O", 18, -2))
+A6 = (("H", 0, 0), ("H", 2, 0), ("O", 0, 0), ("V", 0, 0), ("Gd", 157, 0), ("O", 18, -2))
 POS_COUNTS = (1, 2, 0.5, 3)
 
 
@@ -231,12 +232,12 @@ class Edges(object):
     # ---- (A) scale, count, energy edges of one compound
     def edge_wavelengths(self, frags):
         """global grid + table points of the table-driven atoms (quick: both outside points and every
-        11th node/midpoint; thorough: all)."""
+        11th node/midpoint; thorough: every 3rd)."""
         pts = list(GLOBAL_WL)
         for sym, a in self.ck.table_atoms(frags):
             g = self.ck.table_grid(sym, a)
             outside, inside = g[:2], sorted(g[2:])
-            step = 1 if self.tier != "quick" else 11
+            step = 3 if self.tier != "quick" else 11
             pts += [w for w, r in outside] + [w for w, r in inside[3::step]]
         return sorted(set(pts))
 
@@ -698,14 +699,15 @@ def structure_items(quick):
             items += multisets(A9, n)
         items += multisets(A3, 4)
     else:
-        for n in (1, 2, 3, 4):
+        for n in (1, 2, 3):
             items += multisets(A9, n)
+        items += multisets(A6, 4)
     return items
 
 
 def run(ctx):
     data = rn.NeutronData()
-    for k in K + A9 + A3:
+    for k in K + A9 + A3 + A6:
         if data.has_data(k) is not True:
             raise MachineryError("alphabet atom %r has no data" % (k,))
     tier = ctx.tier
